@@ -105,27 +105,34 @@ def min_cost_flow[Node](
     demand: int,
 ) -> Result:
     """Route demand units from source to sink at minimum total cost."""
-    capacity = defaultdict(lambda: defaultdict(int))
-    cost = defaultdict(lambda: defaultdict(lambda: float("inf")))
+    # Residual network as paired arcs: arc i and arc i ^ 1 are each other's reverse, so parallel arcs keep their
+    # own cost and an arc v->u is never confused with the residual twin of u->v.
+    head: list = []
+    residual: list[int] = []
+    arc_cost: list = []
+    out = defaultdict(list)
     nodes = set()
 
     for u in graph:
         nodes.add(u)
         for v, cap, c in graph[u]:
             nodes.add(v)
-            capacity[u][v] += cap
-            cost[u][v] = min(cost[u][v], c)
-            if cost[v][u] == float("inf"):
-                cost[v][u] = -c
+            out[u].append(len(head))
+            head.append(v)
+            residual.append(cap)
+            arc_cost.append(c)
+            out[v].append(len(head))
+            head.append(u)
+            residual.append(0)
+            arc_cost.append(-c)
 
-    flow = defaultdict(lambda: defaultdict(int))
     total_cost = 0
     total_flow = 0
     iterations = 0
 
     def bellman_ford():
         dist = {n: float("inf") for n in nodes}
-        parent = {n: None for n in nodes}
+        parent_arc = {n: -1 for n in nodes}
         dist[source] = 0
 
         for _ in range(len(nodes) - 1):
@@ -133,52 +140,51 @@ def min_cost_flow[Node](
             for u in nodes:
                 if dist[u] == float("inf"):
                     continue
-                for v in nodes:
-                    residual = capacity[u][v] - flow[u][v] + flow[v][u]
-                    if residual > 0 and dist[u] + cost[u][v] < dist[v]:
-                        dist[v] = dist[u] + cost[u][v]
-                        parent[v] = u
+                for arc in out[u]:
+                    v = head[arc]
+                    if residual[arc] > 0 and dist[u] + arc_cost[arc] < dist[v]:
+                        dist[v] = dist[u] + arc_cost[arc]
+                        parent_arc[v] = arc
                         updated = True
             if not updated:
                 break
 
-        if dist[sink] == float("inf"):
-            return None, float("inf")
+        if dist.get(sink, float("inf")) == float("inf"):
+            return None
 
         path = []
         node = sink
-        while node is not None:
-            path.append(node)
-            node = parent[node]
+        while node != source:
+            arc = parent_arc[node]
+            path.append(arc)
+            node = head[arc ^ 1]
         path.reverse()
-
-        return path, dist[sink]
+        return path
 
     while total_flow < demand:
         iterations += 1
-        path, path_cost = bellman_ford()
+        path = bellman_ford()
+
         if path is None:
             return Result({}, float("inf"), iterations, iterations, Status.INFEASIBLE)
 
         path_flow = demand - total_flow
-        for u, v in zip(path, path[1:]):
-            residual = capacity[u][v] - flow[u][v] + flow[v][u]
-            path_flow = min(path_flow, residual)
+        for arc in path:
+            path_flow = min(path_flow, residual[arc])
 
-        for u, v in zip(path, path[1:]):
-            if flow[v][u] > 0:
-                reduce = min(path_flow, flow[v][u])
-                flow[v][u] -= reduce
-                remaining = path_flow - reduce
-                flow[u][v] += remaining
-                total_cost += cost[u][v] * remaining - cost[v][u] * reduce
-            else:
-                flow[u][v] += path_flow
-                total_cost += cost[u][v] * path_flow
+        for arc in path:
+            residual[arc] -= path_flow
+            residual[arc ^ 1] += path_flow
+            total_cost += arc_cost[arc] * path_flow
 
         total_flow += path_flow
 
-    flows = {(u, v): flow[u][v] for u in flow for v in flow[u] if flow[u][v] > 0}
+    flows: dict = {}
+    for arc in range(0, len(head), 2):
+        used = residual[arc ^ 1]
+        if used > 0:
+            key = (head[arc ^ 1], head[arc])
+            flows[key] = flows.get(key, 0) + used
     return Result(flows, total_cost, iterations, iterations)
 
 
